@@ -379,7 +379,7 @@ class Negative(Term):
         self.term = self.term.replace_table(current_table, new_table)
 
     def get_sql(self, ctx: SqlContext) -> str:
-        term_sql = self.term.get_sql(ctx)
+        term_sql = self.term.get_sql(ctx.copy(with_alias=False))
         # -(a+b) must not render as -a+b, and -(-a) / -(-1) must not render as the comment opener "--"
         if isinstance(self.term, (ArithmeticExpression, Negative)) or term_sql.startswith("-"):
             term_sql = "({})".format(term_sql)
@@ -579,7 +579,7 @@ class Values(Term):
         self.field = self.field.replace_table(current_table, new_table)
 
     def get_sql(self, ctx: SqlContext) -> str:
-        return "VALUES({value})".format(value=self.field.get_sql(ctx))
+        return "VALUES({value})".format(value=self.field.get_sql(ctx.copy(with_alias=False)))
 
 
 class LiteralValue(Term):
@@ -742,7 +742,8 @@ class Tuple(Criterion):
             yield from value.nodes_()
 
     def get_sql(self, ctx: SqlContext) -> str:
-        sql = "({})".format(",".join(term.get_sql(ctx) for term in self.values))
+        element_ctx = ctx.copy(with_alias=False)
+        sql = "({})".format(",".join(term.get_sql(element_ctx) for term in self.values))
         return format_alias_sql(sql, self.alias, ctx)
 
     @property
@@ -775,7 +776,8 @@ class Array(Tuple):
         if ctx.parameterizer is None or not ctx.parameterizer.should_parameterize(
             self.original_value
         ):
-            values = ",".join(term.get_sql(ctx) for term in self.values)
+            element_ctx = ctx.copy(with_alias=False)
+            values = ",".join(term.get_sql(element_ctx) for term in self.values)
 
             sql = "[{}]".format(values)
             if ctx.dialect in (Dialects.POSTGRESQL, Dialects.REDSHIFT):
@@ -840,12 +842,13 @@ class NestedCriterion(Criterion):
         self.nested = self.nested.replace_table(current_table, new_table)
 
     def get_sql(self, ctx: SqlContext) -> str:
+        operand_ctx = ctx.copy(with_alias=False)
         sql = "{left}{comparator}{right}{nested_comparator}{nested}".format(
-            left=self.left.get_sql(ctx),
+            left=self.left.get_sql(operand_ctx),
             comparator=self.comparator.value,
-            right=self.right.get_sql(ctx),
+            right=self.right.get_sql(operand_ctx),
             nested_comparator=self.nested_comparator.value,  # type:ignore[attr-defined]
-            nested=self.nested.get_sql(ctx),
+            nested=self.nested.get_sql(operand_ctx),
         )
 
         if ctx.with_alias:
@@ -908,10 +911,11 @@ class BasicCriterion(Criterion):
         self.right = self.right.replace_table(current_table, new_table)
 
     def get_sql(self, ctx: SqlContext) -> str:
+        operand_ctx = ctx.copy(with_alias=False)
         sql = "{left}{comparator}{right}".format(
             comparator=self.comparator.value,
-            left=self.left.get_sql(ctx),
-            right=self.right.get_sql(ctx),
+            left=self.left.get_sql(operand_ctx),
+            right=self.right.get_sql(operand_ctx),
         )
         if ctx.with_alias:
             return format_alias_sql(sql, self.alias, ctx)
@@ -962,9 +966,9 @@ class ContainsCriterion(Criterion):
         self.container = self.container.replace_table(current_table, new_table)
 
     def get_sql(self, ctx: SqlContext) -> str:
-        container_ctx = ctx.copy(subquery=True)
+        container_ctx = ctx.copy(subquery=True, with_alias=False)
         sql = "{term} {not_}IN {container}".format(
-            term=self.term.get_sql(ctx),
+            term=self.term.get_sql(ctx.copy(with_alias=False)),
             container=self.container.get_sql(container_ctx),
             not_="NOT " if self._is_negated else "",
         )
@@ -1014,20 +1018,22 @@ class RangeCriterion(Criterion):
 class BetweenCriterion(RangeCriterion):
     def get_sql(self, ctx: SqlContext) -> str:
         # FIXME escape
+        operand_ctx = ctx.copy(with_alias=False)
         sql = "{term} BETWEEN {start} AND {end}".format(
-            term=self.term.get_sql(ctx),
-            start=self.start.get_sql(ctx),
-            end=self.end.get_sql(ctx),
+            term=self.term.get_sql(operand_ctx),
+            start=self.start.get_sql(operand_ctx),
+            end=self.end.get_sql(operand_ctx),
         )
         return format_alias_sql(sql, self.alias, ctx)
 
 
 class PeriodCriterion(RangeCriterion):
     def get_sql(self, ctx: SqlContext) -> str:
+        operand_ctx = ctx.copy(with_alias=False)
         sql = "{term} FROM {start} TO {end}".format(
-            term=self.term.get_sql(ctx),
-            start=self.start.get_sql(ctx),
-            end=self.end.get_sql(ctx),
+            term=self.term.get_sql(operand_ctx),
+            start=self.start.get_sql(operand_ctx),
+            end=self.end.get_sql(operand_ctx),
         )
         return format_alias_sql(sql, self.alias, ctx)
 
@@ -1061,7 +1067,7 @@ class BitwiseAndCriterion(Criterion):
 
     def get_sql(self, ctx: SqlContext) -> str:
         sql = "({term} & {value})".format(
-            term=self.term.get_sql(ctx),
+            term=self.term.get_sql(ctx.copy(with_alias=False)),
             value=self.value,
         )
         return format_alias_sql(sql, self.alias, ctx)
@@ -1094,15 +1100,15 @@ class NullCriterion(Criterion):
 
     def get_sql(self, ctx: SqlContext) -> str:
         sql = "{term} IS NULL".format(
-            term=self.term.get_sql(ctx),
+            term=self.term.get_sql(ctx.copy(with_alias=False)),
         )
         return format_alias_sql(sql, self.alias, ctx)
 
 
 class ComplexCriterion(BasicCriterion):
     def get_sql(self, ctx: SqlContext) -> str:
-        left_ctx = ctx.copy(subcriterion=self.needs_brackets(self.left))
-        right_ctx = ctx.copy(subcriterion=self.needs_brackets(self.right))
+        left_ctx = ctx.copy(subcriterion=self.needs_brackets(self.left), with_alias=False)
+        right_ctx = ctx.copy(subcriterion=self.needs_brackets(self.right), with_alias=False)
         sql = "{left} {comparator} {right}".format(
             comparator=self.comparator.value,
             left=self.left.get_sql(left_ctx),
@@ -1223,8 +1229,9 @@ class ArithmeticExpression(Term):
         left_op, right_op = [getattr(side, "operator", None) for side in [self.left, self.right]]
 
         # operands are rendered left to right: a parameterizer numbers values in render order
-        left_sql = self.left.get_sql(ctx)
-        right_sql = self.right.get_sql(ctx)
+        operand_ctx = ctx.copy(with_alias=False)
+        left_sql = self.left.get_sql(operand_ctx)
+        right_sql = self.right.get_sql(operand_ctx)
         # a-(-1) must not render as a--1: "--" opens a comment in every dialect but MySQL
         right_parens = self.right_needs_parens(self.operator, right_op) or (
             self.operator == Arithmetic.sub and right_sql.startswith("-")
@@ -1328,7 +1335,7 @@ class Not(Criterion):
         yield from self.term.nodes_()
 
     def get_sql(self, ctx: SqlContext) -> str:
-        not_ctx = ctx.copy(subcriterion=True)
+        not_ctx = ctx.copy(subcriterion=True, with_alias=False)
         sql = "NOT {term}".format(term=self.term.get_sql(not_ctx))
         return format_alias_sql(sql, self.alias, ctx)
 
@@ -1394,7 +1401,7 @@ class All(Criterion):
         self.term = self.term.replace_table(current_table, new_table)
 
     def get_sql(self, ctx: SqlContext) -> str:
-        sql = "{term} ALL".format(term=self.term.get_sql(ctx))
+        sql = "{term} ALL".format(term=self.term.get_sql(ctx.copy(with_alias=False)))
         return format_alias_sql(sql, self.alias, ctx)
 
 
@@ -1535,7 +1542,9 @@ class AggregateFunction(Function):
 
     def get_filter_sql(self, ctx: SqlContext) -> str:  # type:ignore[return]
         if self._include_filter:
-            criterions = Criterion.all(self._filters).get_sql(ctx)  # type:ignore[attr-defined]
+            criterions = Criterion.all(self._filters).get_sql(  # type:ignore[attr-defined]
+                ctx.copy(with_alias=False)
+            )
             return f"WHERE {criterions}"
         # TODO: handle case of `not self._include_filter`
 
@@ -1615,6 +1624,7 @@ class AnalyticFunction(AggregateFunction):
         )
 
     def get_partition_sql(self, ctx: SqlContext) -> str:
+        ctx = ctx.copy(with_alias=False)
         terms = []
         if self._partition:
             terms.append(
@@ -1893,7 +1903,7 @@ class AtTimezone(Term):
 
     def get_sql(self, ctx: SqlContext) -> str:
         sql = "{name} AT TIME ZONE {interval}'{zone}'".format(
-            name=self.field.get_sql(ctx),
+            name=self.field.get_sql(ctx.copy(with_alias=False)),
             interval="INTERVAL " if self.interval else "",
             zone=self.zone,
         )
